@@ -6,3 +6,40 @@ package clocksync
 // Contracts for /verif (tool: gov); comments only.
 // the command registry and the sentinel error are written by package init only
 //@ immutable commandPayloadRegistry ErrNoPayloadForCID
+
+// ---------------------------------------------------------------------------
+// C09 / C10: decoders are total and write only their receiver (thin contracts)
+// ---------------------------------------------------------------------------
+//@ func interface CommandPayload.Size
+//@   modifies nothing
+//@   ensures nonneg: result >= 0 && result <= 4611686018427387904
+//@ func interface CommandPayload.UnmarshalBinary
+//@   modifies *self
+//@ func interface CommandPayload.MarshalBinary
+//@   modifies nothing
+//@ func (*PackageVersionAnsPayload).UnmarshalBinary
+//@   props C09 C10
+//@   modifies *p
+//@ func (*AppTimeReqPayload).UnmarshalBinary
+//@   props C09 C10
+//@   modifies *p
+//@ func (*AppTimeAnsPayload).UnmarshalBinary
+//@   props C09 C10
+//@   modifies *p
+//@ func (*DeviceAppTimePeriodicityReqPayload).UnmarshalBinary
+//@   props C09 C10
+//@   modifies *p
+//@ func (*DeviceAppTimePeriodicityAnsPayload).UnmarshalBinary
+//@   props C09 C10
+//@   modifies *p
+//@ func (*ForceDeviceResyncReqPayload).UnmarshalBinary
+//@   props C09 C10
+//@   modifies *p
+//@ func (*Command).UnmarshalBinary
+//@   props C09 C10
+//@   modifies *c
+//@ func (Command).Size
+//@   props C09
+//@   modifies nothing
+//@   requires typed-nil: c.Payload != nil ==> as_nonnil(c.Payload)
+//@   ensures positive: result >= 1
